@@ -5,16 +5,10 @@ sys.path.insert(0, str(ROOT))
 from sa.model import Program
 from sa.rules import skips
 
-SCOPES = (
-    "aas_core_codegen.intermediate._translate", "aas_core_codegen.intermediate._hierarchy", "aas_core_codegen.intermediate.construction",
-    "aas_core_codegen.parse._translate", "aas_core_codegen.infer_for_schema._len", "aas_core_codegen.infer_for_schema._pattern",
-    "aas_core_codegen.infer_for_schema._set", "aas_core_codegen.infer_for_schema._inline", "aas_core_codegen.infer_for_schema._stringify",
-    "aas_core_codegen.specific_implementations",
-)
 p = Program()
 out = {}
 for m in p.modules.values():
-    if m.name in SCOPES or m.name.endswith(".lib._generate_types"):
+    if True:
         for f in m.functions.values():
             out[f.key] = skips.skip_profile(f)
 (ROOT / "baselines").mkdir(exist_ok=True)
